@@ -114,6 +114,14 @@ fn plan10(seed: u64, run: u64, tier: Tier) -> Plan10 {
     o.crlf = rng.chance(1, 10);
     o.unicode = rng.chance(1, 3);
     let (mut program, _) = jsgen::gen_program(&mut rng, o);
+    if rng.chance(1, 6) {
+        // the repository's own test inputs, in blocks (a syntax error in one makes the run a non-chaining one)
+        let n = rng.range(1, 3);
+        let c = jsgen::gen_corpus(&mut rng, n);
+        if !c.contains("sourceMappingURL") {
+            program = c;
+        }
+    }
     // make sure something is instrumented
     // the last statement, sometimes with comments after it (they share the trailing-comment entry
     // the reference comment will land in)
